@@ -287,6 +287,17 @@ class Program:
         for mi in self.modules.values():
             for ci in mi.classes.values():
                 ci.mro = self._c3(ci)
+        # `name = some_function` in a class body binds a module-level function as a method
+        for mi in self.modules.values():
+            for ci in mi.classes.values():
+                for name, val in list(ci.class_attrs.items()):
+                    if isinstance(val, ast.Name) and name not in ci.methods:
+                        try:
+                            r = self.resolve_name(mi, val.id)
+                        except AnalysisError:
+                            r = None
+                        if isinstance(r, FuncInfo) and r.cls is None:
+                            ci.methods[name] = r
 
     def _c3(self, ci: ClassInfo) -> List[ClassInfo]:
         def merge(seqs):
